@@ -170,6 +170,7 @@ type uEnv struct {
 	failStreams  map[uint32]bool // local streams whose transport-side RTP writer always fails
 	parkRTCP     atomic.Pointer[chan struct{}] // non-nil: every transport-side RTCP write parks until the channel is closed
 	slowRTCP     atomic.Int64    // nanoseconds the transport-side RTCP writer takes per write (0: returns at once)
+	reuseHdr     *rtp.Header     // C13, reused run: the one header object the application writes all its packets from
 	bindGen      map[uint32]int  // how many transport-side RTP writers have been handed out per local stream (under mu)
 	statsGetter  stats.Getter
 	okW, okR     map[uint32]int // successful application writes / reads per SSRC
@@ -1034,6 +1035,12 @@ func uRunX(t *testing.T, sc *uScript, out *vfWriter, scribble, quiet bool, rb *u
 						h, hdrRaw = h2, raw
 					}
 				}
+				// ... and it keeps ONE header object for all the packets it writes (these scripts write sequentially)
+				if e.reuseHdr == nil {
+					e.reuseHdr = &rtp.Header{}
+				}
+				*e.reuseHdr = *h
+				h = e.reuseHdr
 			}
 			if !e.nowire {
 				ev["pkt"] = vfPkt(h, pl)
